@@ -75,6 +75,23 @@ func PlayGrid(tier string) []*Config {
 		add(cfg(br, 0, 0, 2, 0, false, 0, "no", "f52", 2, 0, "standard", "all"))
 		add(cfg(br, 0, 0, 0, 0, false, 1, "no", "f52", 2, 0, "standard", "all"))
 	}
+	// options with a zero burn count (the engine burns one card per street regardless)
+	for _, br := range vectors(2, []int64{2, 5}) {
+		c := cfg(br, 0, 1, 2, 0, false, 0, "no", "t52", 2, 0, "standard", "all")
+		c.BurnZero = true
+		add(c)
+	}
+	{
+		c := cfg([]int64{3, 5, 4}, 1, 1, 2, 0, false, 2, "no", "sv:1,1,0", 2, 0, "standard", "classes")
+		c.BurnZero = true
+		add(c)
+	}
+	// every hole card required (2 of 2), and 3 of 4
+	for _, br := range vectors(2, []int64{2, 4}) {
+		add(cfg(br, 0, 1, 2, 0, false, 0, "no", "f52", 2, 2, "standard", "all"))
+	}
+	add(cfg([]int64{3, 2, 4}, 0, 1, 2, 0, false, 1, "no", "r52", 2, 2, "standard", "classes"))
+	add(cfg([]int64{3, 4, 2}, 1, 1, 2, 0, false, 0, "no", "t52", 4, 3, "standard", "classes"))
 	// short deck and 4-hole-cards variants
 	for _, br := range vectors(2, []int64{2, 5}) {
 		add(cfg(br, 0, 1, 2, 0, false, 0, "no", "f36", 2, 0, "short", "all"))
@@ -131,5 +148,27 @@ func PlayGrid(tier string) []*Config {
 	add(cfg([]int64{3, 2, 3, 2, 3, 2, 3, 2, 3}, 0, 1, 2, 0, false, 4, "no", "sv:1,0,1,0,1,0,2,0,2", 2, 0, "standard", "classes"))
 	add(cfg([]int64{7, 7, 7}, 0, 1, 2, 0, false, 0, "no", "f36", 2, 0, "short", "all"))
 	add(cfg([]int64{6, 6, 6, 6}, 0, 1, 2, 0, false, 1, "no", "sv:4,0,4,1", 4, 2, "standard", "classes"))
+	return out
+}
+
+// ReplayGrid: small configurations explored WITHOUT state cloning: every
+// successor is a fresh game replayed from Start() on one uninterrupted object,
+// so that slice aliasing and other in-memory-only effects are kept.
+func ReplayGrid(tier string) []*Config {
+	out := []*Config{
+		cfg([]int64{2, 3}, 0, 1, 2, 0, false, 0, "no", "f52", 2, 0, "standard", "classes"),
+		cfg([]int64{3, 2}, 0, 1, 2, 0, false, 1, "no", "r52", 2, 2, "standard", "classes"),
+		cfg([]int64{2, 2, 3}, 0, 1, 2, 0, false, 0, "no", "t52", 2, 2, "standard", "classes"),
+		cfg([]int64{2, 3, 2}, 1, 1, 2, 0, false, 2, "no", "sv:1,1,0", 2, 0, "standard", "classes"),
+		cfg([]int64{3, 2}, 0, 1, 2, 0, false, 0, "no", "f52", 4, 2, "standard", "classes"),
+		cfg([]int64{2, 3}, 0, 1, 2, 0, false, 0, "no", "f36", 2, 0, "short", "classes"),
+		cfg([]int64{2, 2}, 0, 1, 2, 0, false, 0, "no", "f52:12", 2, 0, "standard", "classes"),
+	}
+	if tier == "thorough" {
+		out = append(out,
+			cfg([]int64{4, 4, 4}, 0, 1, 2, 0, false, 0, "no", "sv:1,1,0", 2, 2, "standard", "classes"),
+			cfg([]int64{3, 3, 3, 3}, 0, 1, 2, 0, false, 1, "no", "f52", 2, 0, "standard", "classes"),
+			cfg([]int64{5, 5}, 1, 1, 2, 0, false, 0, "pot", "t52", 4, 4, "standard", "all"))
+	}
 	return out
 }
